@@ -42,8 +42,13 @@ Definition map_res (f : outcome -> outcome) (s : script) : script :=
 
 Definition has_corr (mws : list mw) : bool := existsb (fun m => match m with MCorrelation => true | _ => false end) mws.
 Definition has_ack (mws : list mw) : bool := existsb (fun m => match m with MInstantAck => true | _ => false end) mws.
-Definition timeouts (mws : list mw) : list layer :=
-  flat_map (fun m => match m with MTimeout d => [Layer d false] | _ => [] end) mws.
+(** the context stack the handler sees: every Timeout around it has pushed one layer, outermost first *)
+Fixpoint push_layers (mws : list mw) (ctx : list layer) : list layer :=
+  match mws with
+  | [] => ctx
+  | MTimeout d :: r => push_layers r (Layer d false :: ctx)
+  | _ :: r => push_layers r ctx
+  end.
 
 (** delay metadata: a DelayOnError acts iff what arrives from below it is an error *)
 Fixpoint exp_meta (mws : list mw) (k0 : K) (mt0 : meta) : meta :=
@@ -87,9 +92,9 @@ Definition optZ_eqb := option_eqb Z.eqb.
     Timeout around it, plus the Ack of InstantAck *)
 Definition seen_ok (mws : list mw) (m0 : mstate) (v : vstate) : bool :=
   meta_equiv (v_meta v) (m_meta m0)
-  && Bool.eqb (v_same v) (match timeouts mws ++ m_ctx m0 with [] => true | _ => false end)
-  && Bool.eqb (v_done v) (ctx_done m0)
-  && optZ_eqb (v_deadline v) (min_deadline (timeouts mws ++ m_ctx m0))
+  && Bool.eqb (v_same v) (match push_layers mws (m_ctx m0) with [] => true | _ => false end)
+  && Bool.eqb (v_done v) (ctx_done m0)                 (* the deadline has not passed: alive unless it came dead *)
+  && optZ_eqb (v_deadline v) (min_deadline (push_layers mws (m_ctx m0)))
   && settle_eqb (v_settle v) (if has_ack mws then ack_settle (m_settle m0) else m_settle m0).
 
 (** "the effect ends with the call": the message context afterwards is the context before *)
